@@ -126,14 +126,14 @@ fn battery(d: &mut Ddnnf, s: &mut String, sample_seed: u64) {
     core.sort();
     writeln!(s, "b core {}", join(&core)).unwrap();
     // one full enumeration cycle from a fresh cursor
-    hook::reset_enumeration_cache();
+    crate::common::reset_cursor();
     let amount = rc.to_usize().unwrap_or(0).clamp(1, 5000);
     match guarded(|| d.enumerate(&mut vec![], amount)) {
         Ok(Some(l)) => writeln!(s, "b enum {}", fmt_cfgs(&l)).unwrap(),
         Ok(None) => writeln!(s, "b enum none").unwrap(),
         Err(e) => writeln!(s, "b enum panic {}", e).unwrap(),
     }
-    hook::reset_enumeration_cache();
+    crate::common::reset_cursor();
     // seeded samples
     for k in 0..2u64 {
         let seed = sample_seed.wrapping_add(k) % 1000;
